@@ -257,6 +257,34 @@ def prev_stmt(x):
     return None
 
 
+def share(ctx, other_pid, mapping):
+    """evaluate the rule instances of another property that this property's statement depends on, under this property's rule ids.
+    mapping: {rule-id prefix of the other property: rule-id prefix here}.  The other module's check runs on the same engine (its functions are
+    analysed once); only the obligations whose rule id starts with a mapped prefix are kept."""
+    import importlib
+    mod = importlib.import_module(f"lbsa.props.{other_pid.lower()}")
+    n0, v0 = len(ctx.obligations), len(ctx.violations)
+    saved = ctx.pid
+    ctx.pid = other_pid                       # gates written as `if ctx.pid == "Cxx"` inside the other module behave as in their own run
+    try:
+        mod.check(ctx)
+    finally:
+        ctx.pid = saved
+    new_obs, new_viol = ctx.obligations[n0:], ctx.violations[v0:]
+    keep = []
+    for o in new_obs:
+        for old, new in mapping.items():
+            if o["rule"].startswith(old):
+                o["rule"] = new + o["rule"][len(old):]
+                o["key"] = o["key"].replace(old, new)
+                o["what"] = o["what"] + f"  [rule instance shared with {other_pid}]"
+                keep.append(o)
+                break
+    ctx.obligations[n0:] = keep
+    ctx.violations[v0:] = [v for v in new_viol if any(v is k for k in keep)]
+    return len(keep)
+
+
 def ref_sites(prog, name, loads_only=True):
     """[(module, node, enclosing FunctionInfo|None)] for every syntactic reference to identifier `name`"""
     out = []
